@@ -384,7 +384,7 @@ func oracleRingOrder(r *EngRun) []explore.Violation {
 func init() {
 	enumCheck("C09", "fault_enumeration",
 		func(q bool) []*EnumPlan {
-			return []*EnumPlan{{Name: "stream-cuts", Cases: c09Cases, Eval: evalC09}}
+			return []*EnumPlan{{Name: "stream-cuts", Cases: c09Cases, Eval: evalC09}, {Name: "two-followers", Cases: c09TwoCases, Eval: evalC09Two}}
 		},
 		func(q bool) *SchedPlan {
 			// concurrent appenders (one per key shard): the order of the replication ring must be the order of the log
